@@ -1,8 +1,11 @@
 package main
 
 import (
+	"bytes"
 	"encoding/json"
+	"runtime"
 	"sort"
+	"strconv"
 	"strings"
 	"sync"
 	"unicode/utf8"
@@ -47,6 +50,7 @@ func allGroups(r *sink) []group {
 		contentCases("tail", func(c *QRCase) { cases = append(cases, c) })
 		runTailCases(r, g, cases)
 	}})
+	gs = append(gs, group{"qr_history", func(r *sink, g *gstat) { runHistoryCases(r, g, r.Thorough()) }})
 	gs = append(gs,
 		group{"db_pipeline", func(r *sink, g *gstat) { runDBCases(r, g, dbCases(r.Thorough())) }},
 		group{"labels_values_series", func(r *sink, g *gstat) { runLabelCases(r, g, labelCases(r.Thorough())) }},
@@ -185,6 +189,16 @@ func replayCase(r *sink, rp Replay) bool {
 		}
 		runTempoCases(r, &gstat{}, []*TempoCase{&c})
 		return true
+	case "hist":
+		var c HistCase
+		if err := json.Unmarshal(rp.Case, &c); err != nil {
+			ev.Fatal("replay: %v", err)
+		}
+		c.A.fix()
+		c.B.fix()
+		runtime.GOMAXPROCS(1)
+		runHistoryPair(r, &gstat{}, &c, true, nil)
+		return true
 	case "pyro":
 		var c PyroCase
 		if err := json.Unmarshal(rp.Case, &c); err != nil {
@@ -201,4 +215,108 @@ func replayCase(r *sink, rp Replay) bool {
 		return true
 	}
 	return false
+}
+
+// ---- history: request B after a predecessor A in the same process ---------------------------------------------------
+
+// predecessors: one request of every class on each of the two shapes that stream "one object per series".
+func predecessors() []*QRCase {
+	var out []*QRCase
+	for _, ep := range []string{"range_streams", "range_matrix"} {
+		mk := func() *QRCase {
+			c := &QRCase{Endpoint: ep, EOF: true,
+				Series:  []SeriesDef{{FP: 7, Labels: map[string]string{"s": "a"}}, {FP: 11, Labels: map[string]string{"s": "p"}}},
+				Rows:    []Row{{S: 0, TS: 1e9, Msg: "p1", Val: 1.5}, {S: 0, TS: 2e9, Msg: "p2", Val: 2.5}, {S: 1, TS: 3e9, Msg: "p3", Val: 3.5}},
+				Batches: []int{2, 1}}
+			c.fix()
+			return c
+		}
+		ok := mk()
+		failFirst := mk()
+		failFirst.HasFail, failFirst.FailAfter = true, 0
+		failMid := mk()
+		failMid.HasFail, failMid.FailAfter = true, 1
+		failMid2 := mk()
+		failMid2.HasFail, failMid2.FailAfter = true, 3
+		gone := mk()
+		gone.Abandon = 2
+		out = append(out, ok, failFirst, failMid, failMid2, gone)
+	}
+	return out
+}
+
+func predName(a *QRCase) string {
+	switch {
+	case a.Abandon > 0:
+		return a.Endpoint + "_client_gone_after_2_chunks"
+	case a.HasFail && a.FailAfter == 0:
+		return a.Endpoint + "_failed_before_first_row"
+	case a.HasFail:
+		return a.Endpoint + "_failed_after_" + strconv.Itoa(a.FailAfter) + "_rows"
+	}
+	return a.Endpoint + "_successful"
+}
+
+type HistCase struct {
+	A *QRCase `json:"a"`
+	B *QRCase `json:"b"`
+}
+
+// runHistoryCases: every structure case B (<= 2 rows quick, <= 3 thorough; 4 endpoints) is sent right after every
+// predecessor class A in the same process, with GOMAXPROCS(1) so that a sync.Pool hands A's object over to B.
+// Oracle: B's body satisfies the ordinary document oracle AND is byte-identical whatever the predecessor was.
+func runHistoryCases(r *sink, g *gstat, thorough bool) {
+	runtime.GOMAXPROCS(1)
+	n := 2
+	if thorough {
+		n = 3
+	}
+	preds := predecessors()
+	var bs []*QRCase
+	for _, ep := range []string{"range_streams", "range_matrix", "instant_streams", "instant_vector"} {
+		structCases(ep, n, func(c *QRCase) { bs = append(bs, c) })
+	}
+	parallel(r, bs, func(b *QRCase) {
+		var ref []byte
+		for i, a := range preds {
+			runHistoryPair(r, g, &HistCase{A: a, B: b}, i == 0, &ref)
+		}
+	})
+}
+
+func runHistoryPair(r *sink, g *gstat, h *HistCase, first bool, ref *[]byte) {
+	if _, err := runQR(h.A); err != nil {
+		ev.Fatal("history predecessor: %v", err)
+	}
+	for i := 0; i < 4; i++ {
+		runtime.Gosched() // let the predecessor's encoder goroutine run its deferred calls
+	}
+	body, err := runQR(h.B)
+	if err != nil {
+		ev.Fatal("history: %v", err)
+	}
+	g.add(body)
+	debugBody(body)
+	k, _ := json.Marshal(h)
+	r.Distinct_("hist|" + string(k))
+	if b := checkQR(h.B, body); b != nil {
+		if !firstFP0(h.B) { // the fingerprint-0 classes are the same defect with or without a predecessor
+			b.Class = "after_" + predName(h.A) + "_" + b.Class
+			b.What = "request sent after a " + predName(h.A) + " request in the same process: " + b.What
+		}
+		r.Outcome(b.Class)
+		violate(r, "hist", h, b)
+		return
+	}
+	// (instant vectors are written in map order: their bodies are compared by the document oracle only)
+	if !first && ref != nil && *ref != nil && h.B.Endpoint != "instant_vector" && !bytes.Equal(*ref, body) {
+		b := bad("after_"+predName(h.A)+"_"+h.B.Endpoint+"_body_differs", "body after a %s request differs from the body after a successful one: %s vs %s", predName(h.A), snippet(body), snippet(*ref))
+		r.Outcome(b.Class)
+		violate(r, "hist", h, b)
+		return
+	}
+	if first && ref != nil {
+		*ref = body
+	}
+	r.Outcome("history:" + h.B.Endpoint + ":ok")
 }
